@@ -165,7 +165,7 @@ def pls_y_predictor(x_scores, mpls, nlv, predicted_y):
     lsci.PLSYPredictor(x_scores,
                        mpls,
                        nlv,
-                       ctypes.pointer(ctypes.pointer(predicted_y)))
+                       predicted_y)
 
 
 lsci.PLSYPredictorAllLV.argtypes = [ctypes.POINTER(mx.MATRIX),
